@@ -120,6 +120,20 @@ fn main() {
 
     println!("stdout:{hook}:{n}");
     eprintln!("stderr:{hook}:{n}");
+    // a talkative command: `noise` bytes on each of the two output streams (more than a pipe holds when nobody reads it)
+    let noise = plan.get("noise").and_then(|m| m.get(&hook)).and_then(|v| v.as_u64()).unwrap_or(0);
+    if noise > 0 {
+        use std::io::Write;
+        let line = [b'x'; 1023];
+        let mut left = noise as i64;
+        while left > 0 {
+            let _ = std::io::stderr().write_all(&line).and_then(|_| std::io::stderr().write_all(b"\n"));
+            let _ = std::io::stdout().write_all(&line).and_then(|_| std::io::stdout().write_all(b"\n"));
+            left -= 1024;
+        }
+        let _ = std::io::stdout().flush();
+        rec["noise"] = json!(noise);
+    }
 
     let code = plan
         .get("exit")
